@@ -280,14 +280,34 @@ def workbook_pipe_case(ctx, grids, which: str, data: bytes):
             {"sheets": [[g["name"], [[repr(v) for _t, v in r] for r in g["grid"]]] for g in grids]}, py, lean)
 
 
-def get_xlsform_case(ctx, kind: str, text: str, channel: str, file_type, stem: str, scratch):
+NAME_ATOMS = [".", ".", "a", "b", "Form", " ", "-", "md", "csv", "xlsx", "XLSX", "tar", "gz", "é", "v2", "_"]
+
+
+def path_parts_case(ctx, name: str):
+    """`Backends.pathStem` / `pathSuffix` vs pathlib (and vs the harness's own `path_stem`)."""
+    from pathlib import PurePosixPath
+
+    if not name or name in (".", "..") or "/" in name or "\x00" in name:
+        return
+    pp = PurePosixPath("d") / name
+    if pp.name != name:
+        return
+    py = {"stem": pp.stem, "suffix": pp.suffix}
+    lean = ctx.driver.call("be.path_parts", name=name)
+    ctx.count("fn:path_parts")
+    compare(ctx, "Backends.pathStem/pathSuffix vs PurePath.stem/suffix", {"name": name}, py, lean)
+    compare(ctx, "harness path_stem vs PurePath.stem", {"name": name}, pp.stem, C.path_stem(name))
+
+
+def get_xlsform_case(ctx, kind: str, text: str, channel: str, file_type, stem: str, scratch, suffix=None):
     """Text containers through a channel: DefinitionData vs `be.get_xlsform`."""
     import dataclasses
 
     from pyxform.errors import PyXFormError
     from pyxform.xls2json_backends import get_xlsform
 
-    arg, cleanup, gives = C.deliver(kind, text, channel, scratch, stem=stem)
+    name = stem + suffix if suffix is not None else None
+    arg, cleanup, gives = C.deliver(kind, text, channel, scratch, stem=stem, name=name)
     try:
         try:
             dd = get_xlsform(arg, file_type=file_type)
@@ -303,8 +323,8 @@ def get_xlsform_case(ctx, kind: str, text: str, channel: str, file_type, stem: s
             py = {"outcome": type(e).__name__}
     finally:
         cleanup()
-    lean = ctx.driver.call("be.get_xlsform", text=text, channel="path" if gives else channel.split("_")[0], stem=stem,
-                           suffix=C.EXT[kind], file_type=file_type)
+    lean = ctx.driver.call("be.get_xlsform", text=text, channel="path" if gives else channel.split("_")[0],
+                           name=(name if name is not None else stem + C.EXT[kind]), file_type=file_type)
     if lean["outcome"] == "unsupported":
         ctx.count("fn:get_xlsform:unsupported")
         return
@@ -332,4 +352,6 @@ def explore_fn(ctx, rng: random.Random, n: int, scratch):
             kind, text = rng.choice([("md", m), ("csv", t)])
             ch = rng.choice(C.channels_for(kind))
             if ch != "str" or "\x00" not in text:
-                get_xlsform_case(ctx, kind, text, ch, rng.choice([None, None, ".md", ".csv"]), "st em", scratch)
+                sfx = rng.choice([None, None, ".MD", ".Csv", ".txt", "", ".tar.md", ".", ".x.csv"]) if ch in ("path", "pathlike") else None
+                get_xlsform_case(ctx, kind, text, ch, rng.choice([None, None, ".md", ".csv"]), rng.choice(["st em", ".hid", "a.b", "x"]), scratch, suffix=sfx)
+        path_parts_case(ctx, rand_text(rng, NAME_ATOMS, 6))
